@@ -274,7 +274,7 @@ def c18(ctx):
     g_parse(ctx, acc, 'c18arg', 'MC_C18', cfg(['Mode = "arg"'], ['EmitVector', 'InvAttributable', 'EmitLong']), PARSE_KINDS_ERRTEXT)
     g_parse(ctx, acc, 'c18unk', 'MC_C18', cfg(['Mode = "unknown"'], ['EmitVector']), PARSE_KINDS_ERRTEXT)
     # the C05 corpus is full of rejected inputs: its error texts are checked too
-    g_parse(ctx, acc, 'c18voc', 'MC_C05', cfg(['MemberCap = %d' % pick(ctx, 3, 20), 'Contexts = {1, 2, 4}'], ['EmitVector']), PARSE_KINDS_ERRTEXT)
+    g_parse(ctx, acc, 'c18voc', 'MC_C05', cfg(['MemberCap = %d' % pick(ctx, 3, 20), 'Contexts = {1, 2, 4}'], ['EmitVector', 'EmitSweep', 'EmitForeign']), PARSE_KINDS_ERRTEXT)
     t_parse(ctx, acc, 'c18t', ['--mode', 'errors', '--count', str(pick(ctx, 4000, 40000)), '--seed', str(ctx.seed)], PARSE_KINDS_ERRTEXT)
     return result('model_checking', acc, True,
                   'every argument-taking keyword (43) x {argument missing at end of input, missing before ")", 6 words invalid from their first character per argument language} after 0..3 valid primaries and before 0..2 more; 8 unknown words at every position of 4 base expressions; the rejected inputs of the C05 corpus; seeded damaged expressions validated by TLC. Required facts (keyword, back-quoted offending word, non-empty, no quoted text foreign to the input) come from the specification',
@@ -373,7 +373,7 @@ def gt_sem(ctx, acc, name, family, maxsize, kinds, extra_rec=(), consts='', emit
     cmd = ctx.t.tlc_cmd(name + '_gen', 'MC_Trees', cfg(['Family = "%s"' % family, 'MaxSize = %d' % maxsize], list(emit)), workers=4)
     tl = subprocess.Popen(cmd, cwd=ctx.t.SPEC, stdout=subprocess.PIPE, stderr=subprocess.STDOUT)
     with open(trace, 'w') as f:
-        rp = subprocess.run([binp, 'compile-trees'] + list(extra_rec), stdin=tl.stdout, stdout=f, stderr=subprocess.PIPE, text=True, timeout=1800)
+        rp = subprocess.run([binp, 'compile-trees'] + list(extra_rec), stdin=tl.stdout, stdout=f, stderr=subprocess.PIPE, text=True, timeout=1800, cwd=ctx.t.bait_dir())
     tl.wait()
     if rp.returncode != 0 or 'Error' in rp.stderr:
         raise ctx.t.ToolError('tree generation failed: ' + rp.stderr[-400:])
@@ -579,7 +579,7 @@ def c04(ctx):
     cmd = ctx.t.tlc_cmd('c04_gen', 'MC_C04', cfg(['MaxLen = %d' % mlen], ['EmitTree', 'EmitSingles', 'EmitAscii', 'EmitOffsets']), workers=8)
     tl = subprocess.Popen(cmd, cwd=ctx.t.SPEC, stdout=subprocess.PIPE, stderr=subprocess.STDOUT)
     with open(trace, 'w') as f:
-        rp = subprocess.run([binp, 'compile-trees'], stdin=tl.stdout, stdout=f, stderr=subprocess.PIPE, text=True, timeout=1800)
+        rp = subprocess.run([binp, 'compile-trees'], stdin=tl.stdout, stdout=f, stderr=subprocess.PIPE, text=True, timeout=1800, cwd=ctx.t.bait_dir())
     tl.wait()
     if rp.returncode != 0 or 'Error' in rp.stderr:
         raise ctx.t.ToolError('tree generation failed: ' + rp.stderr[-400:])
@@ -632,7 +632,7 @@ def c04(ctx):
                                     'path0': cpl('QZQ' if slot == 'device-path' else '/dev/mdt0')}) + '\n')
     wtrace = '%s/c04words.ndjson' % ctx.work
     with open(wtrace, 'w') as f:
-        rp = subprocess.run([binp, 'compile-trees'], stdin=open(wfile), stdout=f, stderr=subprocess.PIPE, text=True, timeout=1800)
+        rp = subprocess.run([binp, 'compile-trees'], stdin=open(wfile), stdout=f, stderr=subprocess.PIPE, text=True, timeout=1800, cwd=ctx.t.bait_dir())
     if rp.returncode != 0:
         raise ctx.t.ToolError('compile-trees failed on the word list: ' + rp.stderr[-400:])
     wverdicts = sem_validate(ctx, acc, 'c04words', wtrace, LEX_KINDS, consts='CONSTANT MaxFiles = 3\nCONSTANT Static = FALSE\n', timeout=6000)
@@ -671,7 +671,7 @@ def c11(ctx):
     cmd = ctx.t.tlc_cmd('c11_gen', 'MC_Manager', cfg(['MaxLen = 3'], ['EmitTree']) + 'VIEW View\n', workers=8)
     tl = subprocess.Popen(cmd, cwd=ctx.t.SPEC, stdout=subprocess.PIPE, stderr=subprocess.STDOUT)
     with open(trace, 'w') as f:
-        rp = subprocess.run([binp, 'compile-trees'], stdin=tl.stdout, stdout=f, stderr=subprocess.PIPE, text=True, timeout=1800)
+        rp = subprocess.run([binp, 'compile-trees'], stdin=tl.stdout, stdout=f, stderr=subprocess.PIPE, text=True, timeout=1800, cwd=ctx.t.bait_dir())
     tl.wait()
     if rp.returncode != 0 or 'Error' in rp.stderr:
         raise ctx.t.ToolError('tree generation failed: ' + rp.stderr[-400:])
@@ -692,7 +692,7 @@ def c16(ctx):
     cmd = ctx.t.tlc_cmd('c16_gen', 'MC_Trees', cfg(['Family = "c16"', 'MaxSize = %d' % pick(ctx, 2, 3)], ['EmitTree']), workers=4)
     tl = subprocess.Popen(cmd, cwd=ctx.t.SPEC, stdout=subprocess.PIPE, stderr=subprocess.STDOUT)
     with open(trace, 'w') as f:
-        rp = subprocess.run([binp, 'compile-trees'], stdin=tl.stdout, stdout=f, stderr=subprocess.PIPE, text=True, timeout=1800)
+        rp = subprocess.run([binp, 'compile-trees'], stdin=tl.stdout, stdout=f, stderr=subprocess.PIPE, text=True, timeout=1800, cwd=ctx.t.bait_dir())
     tl.wait()
     recs = [json.loads(l) for l in open(trace) if l.startswith('{')]
     if rp.returncode != 0 or not recs:
@@ -703,7 +703,7 @@ def c16(ctx):
     cmd = ctx.t.tlc_cmd('c16big_gen', 'MC_Trees', cfg(['Family = "c16big"', 'MaxSize = 1'], ['EmitTree']), workers=2)
     tl = subprocess.Popen(cmd, cwd=ctx.t.SPEC, stdout=subprocess.PIPE, stderr=subprocess.STDOUT)
     with open(big, 'w') as f:
-        rp = subprocess.run([binp, 'compile-trees'], stdin=tl.stdout, stdout=f, stderr=subprocess.PIPE, text=True, timeout=1800)
+        rp = subprocess.run([binp, 'compile-trees'], stdin=tl.stdout, stdout=f, stderr=subprocess.PIPE, text=True, timeout=1800, cwd=ctx.t.bait_dir())
     tl.wait()
     bigrecs = [json.loads(l) for l in open(big) if l.startswith('{')]
     if rp.returncode != 0 or len(bigrecs) != 2:
